@@ -233,3 +233,7 @@ pub(crate) fn delete_unverified_block(
 /// verification hook: the orphan pool type (module `utils` is private); add-only, off by default
 #[cfg(feature = "verif-hooks")]
 pub use utils::orphan_block_pool::{EXPIRED_EPOCH as VERIF_ORPHAN_EXPIRED_EPOCH, OrphanBlockPool};
+
+/// verification hook: on-demand trigger for the orphan-expiry timer (see the module documentation)
+#[cfg(feature = "verif-hooks")]
+mod verif_expire;
